@@ -78,6 +78,12 @@ ROUTES = {
     'radd-empty': lambda s, tc, tok: tc() + s,
     'add-str': lambda s, tc, tok: s + '0b1',
     'radd-str': lambda s, tc, tok: '0b1' + s,
+    # the text another member may have been built from, combined with an EMPTY object of the target class (nothing to concatenate)
+    'tok-radd-empty': lambda s, tc, tok: tok + tc(),
+    'empty-add-tok': lambda s, tc, tok: tc() + tok,
+    'tok-radd-empty-slice': lambda s, tc, tok: tok + tc('0b1')[1:],
+    'source-add-empty-str': lambda s, tc, tok: s + '',
+    'empty-str-radd-source': lambda s, tc, tok: '' + s,
     'radd-long-str': lambda s, tc, tok: ('0b' + '10' * (len(s) // 2 + 1)) + s,          # the promoted left operand is the longer one
     'radd-long-bytes': lambda s, tc, tok: (b'\xa5' * (len(s) // 8 + 1)) + s,
     'radd-long-list': lambda s, tc, tok: ([1, 0] * (len(s) // 2 + 1)) + s,
@@ -644,6 +650,8 @@ def run(ctx):
         rk = ctx.rng.choice(['str', 'str', 'bin', 'bytearray', 'memoryview', 'bitarray', 'array', 'BytesIO', 'memoryview-ro',
                              'memoryview-part', 'bytearray-sub'])
         bits = rb(ctx.rng, ctx.rng.choice([8, 16, 24, 64]))
+        if rk not in ('str', 'bin') and i % 150 == 11:
+            bits = rb(ctx.rng, 8 * ctx.rng.choice([4096, 4097, 8192, 65536]))        # an external buffer of a page or more (where wrapping instead of copying would pay)
         case = {'root': [rk, bits, ctx.rng.choice(TC)], 'steps': [], 'lsb0': i % 4 == 3}
         if rk == 'str' and ctx.rng.random() < 0.12:
             # the empty bitstring in its token-string spellings (they all parse to nothing)
